@@ -139,7 +139,7 @@ def center_case(p):
     rng = np.random.default_rng(p['seed'])
     nf, k = p['nf'], p['k']
     X = rng.normal(size=(p['rows'], nf)) * rng.uniform(0.5, 3, size=nf) + rng.normal(size=nf)
-    if p['seed'] % 3 == 0:
+    if p.get('int_typed', p['seed'] % 3 == 0):
         X = np.round(7 * X).astype(np.int64)         # whole-number data handed over as an integer-typed matrix
     import warnings
     with warnings.catch_warnings():
@@ -184,6 +184,8 @@ def gen_center_params(rng, n):
         k = int(rng.choice([1, 1, 2, 3, 5]))
         if g == 'grid':
             k = int(rng.choice([1, 2, 3])); nf = min(nf, 4)
+            if (i // len(gens)) % 2 == 1:
+                k = 3            # every other grid: an interior point per feature (fractional for whole-number data)
         if g == 'qmc' and True:
             pass
         out.append(dict(test='center', gen=g, nf=nf, k=k, rows=int(rng.integers(max(3, k + 1), 12)),
@@ -191,6 +193,8 @@ def gen_center_params(rng, n):
                         seedtype=str(rng.choice(['int', 'state'])),
                         engine=(None if rng.random() < 0.4 else str(rng.choice(['lhs', 'sobol', 'halton']))),
                         seed=int(rng.integers(1 << 30))))
+        if (i // len(gens)) % 2 == 1:
+            out[-1]['int_typed'] = bool((i // (2 * len(gens))) % 2 == 0)   # deterministic share of integer-typed data
         # (Sobol warns when the count is not a power of two; the count must be honoured all the same)
     return out
 
